@@ -488,7 +488,7 @@ def run(ctx):
             if rng.random() < 0.2:
                 del by[rng.choice(range(5))]
             lrn = _learned(sg)
-            mode = rng.choice(("any", "hits", "misses"))
+            mode = rng.choice(("any", "any", "any", "hits", "misses"))
             if mode != "any":
                 by = {k: [p for p in v if _contains_any(tuple(p), lrn) == (mode == "hits")] for k, v in by.items()}
             suff.append((sg, L, by, rng.random() < 0.5))
@@ -512,11 +512,15 @@ def run(ctx):
             rule=f"{len(clean)} seeded (A, m, n) with a learned pattern and <= {MAX_MONITORS} initial monitors; B = complement of A "
                  f"up to bm in (n, n+1) (or two thirds of it), limit_monitors in (0, #patterns, #patterns+1); non-trivial = a basis is returned")
     # ---------------------------------------------------------------- automatic driver
-    if not quick:
-        names = ["smooth", "forest_like", "baxter", "simsun", "av_231", "av_231_lambda", "stack_sortable", "west_2_stack_sortable"]
-        ctx.run("C17.auto_bisc", [(nm, 8) for nm in names], chunk=1, timeout_s=1500,
-                rule="auto_bisc on eight predicates (FunctionType): result vs predicate on ALL perms <= 8 by the spec definition; "
-                     "every 97th perm also cross-checks the real Perm.avoids(MeshPatt)")
+    if quick:
+        autos = [("av_231_lambda", 7), ("simsun", 7)]
+    else:
+        autos = [(nm, 8) for nm in ("dihedral", "hard_mesh", "yt_perm_avoids_22", "smooth", "forest_like", "baxter", "simsun",
+                                    "av_231", "av_231_lambda", "stack_sortable", "west_2_stack_sortable")]
+    ctx.run("C17.auto_bisc", autos, chunk=1, timeout_s=1500,
+            rule=f"auto_bisc on {len(autos)} predicates (FunctionType; classical, mesh and non-hereditary ones): result vs predicate "
+                 f"on ALL perms <= {autos[0][1]} by the spec definition (the driver itself sanity-checks on S8); every 97th perm also "
+                 f"cross-checks the real Perm.avoids(MeshPatt); non-trivial = a description was returned")
     ctx.assumptions += [
         "B layer: bounded. bisc: exhaustive over all subsets of S0..S3 for the listed (m, n); seeded for sets of perms <= 5",
         "mesh containment = specs.core definition, evaluated through specs.meshfast (occupied-cell tables); the two are "
